@@ -34,6 +34,14 @@ package obfuscation
 //@   ensures result != nil
 //@ pure Arena.NewString
 //@ pure Hasher.HashBytes
+// the hasher that is configured in production: what comes out is the hex MD5 digest of what went in - for EVERY input,
+// also one that already looks like a digest (a 32-hex API key or session id must not pass through unchanged)
+//@ pure md5.Sum
+//@ pure hex.EncodeToString
+//@ func (MD5Hasher).HashBytes
+//@   prop C16
+//@   modifies nothing
+//@   ensures[the-digest-never-the-input] result == hex.EncodeToString(md5.Sum(raw)[:])
 //@ pure getKeys
 //@ extern Arena.NewArray
 //@   modifies nothing
